@@ -109,6 +109,18 @@ def lex_one_string(text):
     return [(t.type, t.value) for t in lx.tokens]
 
 
+CORRUPT = """
+def corrupt(x) do
+  if is_string(x) then do if length(x) > 0 then x[0] = 'Q~' end
+  elif is_list(x) then do for e in x do corrupt(e) end; append(x, 'Ql') end
+  elif is_map(x) then do for k in keys x do corrupt(x[k]) end; x['Qk'] = 1 end
+  elif is_set(x) then append(x, 'Qs')
+  else NULL
+end;
+corrupt(res)
+"""
+
+
 def check_value(ctx, it, av, r):
     import ckl.functions
     ctx.case(av, nontrivial=av[0] not in ("null", "bool"))
@@ -158,6 +170,19 @@ def check_value(ctx, it, av, r):
     if t3 != t1:
         ctx.violation("C08:round-trip-text:%s" % trig if trig != "pattern-slash" else "C08:round-trip:pattern-slash",
                       "%r evaluates to a value rendering as %r" % (t1, t3), {"value": av, "text": t1})
+    # the evaluated text is a program like any other: what it returned may be edited in place, and evaluating the
+    # same text again (same interpreter, same file name) still yields the original value
+    if av[0] in ("str", "list", "set", "map") and trig != "pattern-slash" and r.random() < 0.5:
+        env = ckl.functions.Environment()
+        env.put("res", v3)
+        oc = observe(lambda: it.interpret(CORRUPT, "c08-edit", env), 600000)
+        env = ckl.functions.Environment()
+        o = observe(lambda: it.interpret(t1, "c08", env), 600000)
+        ctx.count("reevaluations_after_result_edit")
+        if oc.kind == "value" and (o.kind != "value" or str(o.value) != t1):
+            ctx.violation("C08:round-trip-again:%s" % av[0],
+                          "%r evaluated, its result edited in place, evaluated again: %s" % (
+                              t1, core.safe_str(o.value if o.kind == "value" else o.exc, 120)), {"value": av, "text": t1})
     # literal source in permuted order evaluates to the same text (canonical via the interpreter)
     if literal_ok(av):
         src = gv.to_source(av, r, r)
@@ -437,7 +462,8 @@ def run_shard(spec, ctx):
 def finalize(merged, tier):
     c = merged["counters"]
     reasons = []
-    for k in ("renderings", "roundtrips", "string_relex", "literal_evaluations", "int_invariant_evaluations", "mutate_rerender_programs"):
+    for k in ("renderings", "roundtrips", "string_relex", "literal_evaluations", "int_invariant_evaluations", "mutate_rerender_programs",
+              "reevaluations_after_result_edit"):
         if c.get(k, 0) == 0:
             reasons.append("monitor counter %s is zero" % k)
     if c.get("suite_tests", 0) == 0 or c.get("suite_report_missing", 0):
